@@ -406,6 +406,14 @@ func c08CheckResult(chain *simnode.Chain, sh *c08Shape, start, limit uint64, sna
 				return "tx-mismatch", fmt.Sprintf("block %d has transaction index %d twice", cb.Num, tx.idx)
 			}
 			seen[tx.idx] = tx
+			if len(cb.Txs) == 0 && tx.idx == 0 && f.UseTraces && len(cb.Rewards) > 0 {
+				// a block without transactions whose trace_block result holds only reward traces: they name no
+				// transaction and are kept under position 0
+				if tx.hash != "" || tx.nonce != 0 || len(tx.logs) > 0 || strings.Join(tx.traces, "|") != strings.Join(c08RewardTraces(cb), "|") {
+					return "tx-mismatch", fmt.Sprintf("block %d holds no transaction, position 0 carries more than its reward traces: %+v", cb.Num, *tx)
+				}
+				continue
+			}
 			if tx.idx >= uint64(len(cb.Txs)) {
 				return "tx-mismatch", fmt.Sprintf("block %d has a transaction %d the chain does not contain", cb.Num, tx.idx)
 			}
@@ -447,6 +455,9 @@ func c08CheckResult(chain *simnode.Chain, sh *c08Shape, start, limit uint64, sna
 				for k := range ct.Traces {
 					t := &ct.Traces[k]
 					want = append(want, fmt.Sprintf("%s>%s %s %s", c07Hex(t.From), c07Hex(t.To), t.CallType, t.Value.Text(16)))
+				}
+				if ct.Idx == 0 {
+					want = append(want, c08RewardTraces(cb)...)
 				}
 				if strings.Join(want, "|") != strings.Join(tx.traces, "|") {
 					return "trace-mismatch", fmt.Sprintf("block %d tx %d traces differ from the chain", cb.Num, tx.idx)
@@ -524,6 +535,15 @@ func c08VsUncached(chain *simnode.Chain, sh *c08Shape, snap []c08Blk, ref c08Ref
 	return "", nil, nil
 }
 
+// c08RewardTraces: how the reward traces of a block appear among the trace actions of position 0.
+func c08RewardTraces(cb *simnode.Block) []string {
+	var out []string
+	for i := range cb.Rewards {
+		out = append(out, fmt.Sprintf(">  %s", cb.Rewards[i].Value.Text(16)))
+	}
+	return out
+}
+
 // c08MatchingView lists the caller-relevant content of a snapshot (for the comparison with the uncached client).
 func c08MatchingView(chain *simnode.Chain, sh *c08Shape, snap []c08Blk) []string {
 	var out []string
@@ -594,7 +614,7 @@ func c08Run(c *vk.Case) {
 }
 
 func c08Chain(r *vk.RNG, n int) *simnode.Chain {
-	ch := simnode.NewChain(r.U64(), gen.Content(gen.ChainOpts{Seed: r.U64(), MinTxs: 1, MaxTxs: 3, MaxLogs: 3, MinTraces: 1, MaxTraces: 2, Makers: c08Makers()}))
+	ch := simnode.NewChain(r.U64(), gen.Content(gen.ChainOpts{Seed: r.U64(), MinTxs: 1, MaxTxs: 3, MaxLogs: 3, MinTraces: 1, MaxTraces: 2, Makers: c08Makers(), Rewards: 2, EmptyEvery: 3}))
 	ch.Grow(n)
 	return ch
 }
